@@ -140,8 +140,14 @@ def gen_plan(prop, r, tier, run):
                                                      r.randint(1, 3)),
                     'commit': r.chance(0.7)})
     rex = r.chance(0.5)
+    if r.chance(0.25):
+        # the database's owner ran ANALYZE at some point (statistics tables
+        # exist and go stale with every later write)
+        ops.append({'op': 'analyze'})
     ops.append({'op': 'discover', 'rex': rex})
     ops.append({'op': 'verify'})
+    if r.chance(0.1):
+        ops.append({'op': 'analyze'})
     for _ in range(r.weighted([(2, 0), (5, 1), (2, 2), (1, 3)])):
         k = r.weighted([(7, 'rogue'), (1, 'rediscover'), (0.5, 'delete_all')])
         if k == 'rogue':
@@ -735,7 +741,20 @@ def rogue_value(ctx, f, kind, v, pick2):
     return NOPE
 
 
-OPS = {'insert': op_insert, 'discover': op_discover, 'verify': op_verify,
+def op_analyze(ctx, op):
+    try:
+        ctx.conn.cursor().execute('ANALYZE')
+        ctx.conn.commit()
+        ctx.stats['probes']['database_analysed_earlier'] += 1
+        ctx.events.append({'i': op['i'], 'op': 'analyze', 'outcome': 'ok'})
+    except Exception as e:
+        # (locked by the other writer's open transaction)
+        ctx.stats['abstain']['analyze_blocked'] += 1
+        ctx.events.append({'i': op['i'], 'op': 'analyze',
+                           'outcome': type(e).__name__})
+
+
+OPS = {'analyze': op_analyze, 'insert': op_insert, 'discover': op_discover, 'verify': op_verify,
        'rogue_insert': op_rogue_insert, 'delete_all': op_delete_all,
        'recreate': op_recreate, 'failed_call': op_failed_call}
 
